@@ -191,11 +191,13 @@ class ClassCtor(Callable_):
 class ExcClass:
     """An exception class object (known class)."""
 
-    def __init__(self, name):
+    def __init__(self, name, exact=True, written=None):
         self.name = name
+        self.exact = exact          # False: a builtin exception class outside the modelled tree, represented by its nearest modelled ancestor
+        self.written = written or name
 
     def __repr__(self):
-        return f'<class {self.name}>'
+        return f'<class {self.written}>'
 
 
 class KwPack:
@@ -441,6 +443,14 @@ class Exec:
             return TypeName(name)
         if name in STD_MODULES:
             return Module(name)
+        import builtins
+        b = getattr(builtins, name, None)
+        if isinstance(b, type) and issubclass(b, BaseException):
+            # a builtin exception class outside the modelled tree: raising it creates an instance of its nearest modelled ancestor
+            # (the abstraction is "most specific KNOWN ancestor"); catching by it is not supported (exc_match)
+            for anc in b.__mro__[1:]:
+                if anc.__name__ in V.CLASS_TREE:
+                    return ExcClass(anc.__name__, exact=False, written=name)
         raise Unsupported(f'name `{name}`')
 
     def ev_Name(self, e, st):
@@ -1308,6 +1318,8 @@ class Exec:
             c = unbox_handle(self, c)
             if not isinstance(c, ExcClass):
                 raise Unsupported(f'except clause type {c!r}')
+            if not c.exact:
+                raise Unsupported(f'except clause over `{c.written}`, a class outside the modelled exception tree')
             conds.append(V.isinst(exc, c.name))
         return z3.Or(conds) if len(conds) > 1 else conds[0]
 
